@@ -753,10 +753,15 @@ impl PatternFusion for LayerNormalizationFusion {
         let x = Pattern::symbol("x");
 
         // First step: Center values
-        let center_pat =
-            x.clone() - Pattern::unary_op("ReduceMean", x.clone()).with_name("center_mean");
+        let center_pat = (x.clone()
+            - Pattern::unary_op("ReduceMean", x.clone()).with_name("center_mean"))
+        .with_name("center");
 
         // Middle step: Normalize variance
+        //
+        // The variance must be computed from the same centered value that is
+        // being normalized. This is verified in `maybe_fuse`.
+        let centered = Pattern::symbol("centered");
         let epsilon = Pattern::const_symbol("epsilon");
         let normalize_variance_pat = center_pat.clone()
             / Pattern::unary_op(
@@ -764,7 +769,7 @@ impl PatternFusion for LayerNormalizationFusion {
                 epsilon
                     + Pattern::unary_op(
                         "ReduceMean",
-                        Pattern::binary_op("Pow", center_pat.clone(), 2.0),
+                        Pattern::binary_op("Pow", centered, 2.0),
                     )
                     .with_name("norm_mean"),
             );
@@ -793,6 +798,17 @@ impl PatternFusion for LayerNormalizationFusion {
             // multiple trailing axes. However this fusion only supports the
             // common case of taking the mean over one axis.
             return Err(FusionError::CheckFailed("not applied to last axis"));
+        }
+
+        let centered = pat_match
+            .node_id("center")
+            .and_then(|id| graph.get_node(id))
+            .and_then(|n| n.as_operator())
+            .and_then(|op| op.output_ids().first().copied().flatten());
+        if centered.is_none() || centered != pat_match.node_id("centered") {
+            return Err(FusionError::CheckFailed(
+                "variance not computed from centered input",
+            ));
         }
 
         let center_mean = pat_match.node_id("center_mean").unwrap();
